@@ -747,7 +747,21 @@ pub fn run(ctx: &mut Ctx) -> Result<(), Violation> {
             } else if st.want_sample() {
                 st.sample(json!({"kind": "bdd", "f": f.to_json()}));
             }
-            check_fun(&f)
+            // every diagram once as nodes of the environment; a third of them also as plain values
+            // (separately allocated equal sub-diagrams, what `BDD::<usize>::from(named)` yields) and
+            // as nodes of another environment
+            check_fun(&f)?;
+            match i % 3 {
+                0 => {
+                    st.class("operands:plain");
+                    crate::fun::with_operands(crate::fun::Operands::Plain, || check_fun(&f))
+                }
+                1 => {
+                    st.class("operands:other-env");
+                    crate::fun::with_operands(crate::fun::Operands::OtherEnv, || check_fun(&f))
+                }
+                _ => Ok(()),
+            }
         });
         ctx.stage(&format!("diagrams-all-functions-k{}", k), true, r)?;
     }
@@ -760,7 +774,9 @@ pub fn run(ctx: &mut Ctx) -> Result<(), Violation> {
         if f.tt.support().len() >= 2 && st.nontrivial(f.fingerprint()) {
             st.nt_sample(|| json!({"kind": "bdd", "f": f.to_json()}));
         }
-        check_fun(&f)
+        let mode = crate::fun::gen_operands(&mut t);
+        st.class(&format!("operands:{}", mode.name()));
+        crate::fun::with_operands(mode, || check_fun(&f))
     });
     ctx.stage("diagrams-random-up-to-8-vars", false, r)?;
 
@@ -828,6 +844,10 @@ pub fn run(ctx: &mut Ctx) -> Result<(), Violation> {
 
 pub fn replay(case: &Value) -> Check {
     match case["kind"].as_str() {
+        Some("bdd") if case["operands"].is_string() => match Fun::from_json(&case["f"]) {
+            Some(f) => crate::fun::with_operands(crate::fun::case_operands(case), || check_fun(&f)),
+            None => Err(Violation::new("unreadable replay case", case.clone())),
+        },
         Some("bdd") => match Fun::from_json(&case["f"]) {
             Some(f) => check_fun(&f),
             None => Err(Violation::new("unreadable replay case", case.clone())),
